@@ -1045,10 +1045,34 @@ def rule_r4(chk, prog):
               nt, 2)
     # SimplifySymbolNames
     sf = ms.func('SimplifySymbolNames.filter')
+    # every way the filter accepts a node has established that the symbol
+    # is not a constant (decision structure over opaque atoms)
+    from ..boolfn import BoolFn
+    np_ = params_of(sf)[1] if len(params_of(sf)) > 1 else 'node'
+
+    def _atom(e):
+        t = unparse(e)
+        if t == f'is_const({np_}[1])':
+            return ('isconst', True)
+        return (t, True)
+
+    try:
+        bf = BoolFn(sf, _atom)
+        bad = [val for val, res in bf.table()
+               if res and val.get('isconst', True)]
+        okf = 'isconst' in bf.atom_keys and not bad
+        why = ('' if okf else
+               'accepted with ' + str({k: v for k, v in (bad[0] if bad
+                                                          else {}).items()
+                                      if v})[:160])
+    except AnalysisError as e_:
+        raise AnalysisError(f'C03.R4: SimplifySymbolNames.filter: {e_}')
     chk.check('C03.R4', 'mutators_smtlib.SimplifySymbolNames.filter',
-              'not is_const(node[1])', 'not is_const(node[1])' in unparse(sf),
-              'symbols that are constants are renamed (x -> false -> fals -> '
-              '...)', loc=ms.loc(sf), nontrivial=True)
+              'not is_const(node[1]) on every accepting path', okf,
+              'the filter accepts a command whose symbol is a constant '
+              f'({why}): the symbol is renamed to ever shorter names and '
+              'back (false -> fals -> fa -> f -> false): a cycle of '
+              'accepted renamings', loc=ms.loc(sf), nontrivial=True)
     ss = ms.func('SimplifySymbolNames.__simpler')
     ys = [y for y in ast.walk(ss) if isinstance(y, ast.Yield)]
     chk.floor('C03.R4', 'yields of __simpler', len(ys), 3)
